@@ -237,6 +237,22 @@ func (e *Env) ident(name string) *Val {
 			return p
 		}
 	}
+	if e.locals && name == "ranged" && e.at != nil {
+		// the slice a 'for ... range <expr>' loop iterates over, when <expr> is not a named variable:
+		// the operand of the len() the loop head compares the index with
+		for _, in := range e.at.Instrs {
+			if bo, ok := in.(*ssa.BinOp); ok && bo.Op == token.LSS {
+				if c, ok := bo.Y.(*ssa.Call); ok {
+					if b, ok := c.Call.Value.(*ssa.Builtin); ok && b.Name() == "len" && len(c.Call.Args) == 1 {
+						if v, ok := fv.regs[c.Call.Args[0]]; ok {
+							return v
+						}
+					}
+				}
+			}
+		}
+		return e.errf("ranged: the loop head does not compare an index with len(<slice>)")
+	}
 	if e.locals && name == "visited" && e.at != nil {
 		// visited set of the map iteration governing this loop: visited[k] for keys already yielded
 		var best *ssa.Range
@@ -664,6 +680,16 @@ func (e *Env) call(n *ast.CallExpr) *Val {
 		dn, _, _, ds, _ := fv.mapParts(mt)
 		d := fv.heapAt(e.st, dn, ds)
 		return boolVal(fmt.Sprintf("(and (not (= %s 0)) (select (select %s %s) %s))", m.T, d, m.T, k.T))
+	case "indom": // indom(m, k): raw domain bit of map m at k (has(m,k) for a non-nil map); usable as a trigger
+		m := e.tr(n.Args[0])
+		k := e.tr(n.Args[1])
+		mt, ok := m.Typ.Underlying().(*types.Map)
+		if !ok {
+			return e.errf("indom on non-map")
+		}
+		dn, _, _, ds, _ := fv.mapParts(mt)
+		d := fv.heapAt(e.st, dn, ds)
+		return boolVal(fmt.Sprintf("(select (select %s %s) %s)", d, m.T, k.T))
 	case "fresh": // fresh(p): p allocated during the call
 		v := e.tr(n.Args[0])
 		t := v.T
@@ -806,6 +832,8 @@ func (e *Env) call(n *ast.CallExpr) *Val {
 		return &Val{T: fmt.Sprintf("(ite (%s %s %s) %s %s)", op, a.T, b.T, a.T, b.T), Typ: mathType(a, b)}
 	case "held": // held(mu) lock token state: 0 none, n>0 read count, -1 write
 		return intVal("(select " + fv.heapAt(e.st, "LOCK", "(Array Int Int)") + " " + e.addrOf(n.Args[0]) + ")")
+	case "oncedone": // oncedone(x.once): this sync.Once has fired
+		return boolVal("(select " + fv.heapAt(e.st, "ONCE", "(Array Int Bool)") + " " + e.addrOf(n.Args[0]) + ")")
 	case "addr": // addr(x.f): opaque address of a field (identity only)
 		return intVal(e.addrOf(n.Args[0]))
 	}
